@@ -142,6 +142,8 @@ class World:
             ms['split_limits'] = rng.random() < 0.4
             ms['redeclare'] = rng.random() < 0.3
             ms['const_errors'] = rng.random() < 0.4
+            # the write methods may be made by frappy.rwhandler.WriteHandler from one method of the driver
+            ms['write_handler'] = rng.random() < 0.3
             for p in ms['params']:
                 if p['limits'] and p['check'] and not ms['split_limits']:
                     p['check'] = None
